@@ -439,6 +439,8 @@ def check(chk):
     ok = any(isinstance(x, ast.Assign) and src(x.targets[0]) == "self._lost_synch" and src(x.value) == "True" for x in walk_local(g_.node))
     chk.ob("DOM-29", "a handler that finds a short frame can force a resync", ok, g_.where(), construct=g_.ident, text="lost_synch()")
 
+    _opp_poll(chk, repo)
+
     # ------------------------------------------------------------ SYNC-1
     DEFER = {"call_soon", "call_later", "call_at", "create_task", "ensure_future", "schedule_once", "run_in_executor"}
     n_proc = 0
@@ -509,6 +511,50 @@ def check(chk):
         cs = [c for c in h.calls() if call_attr(c) == "process_switch_by_num"]
         ok = len(cs) == 1 and const_value(kwarg(cs[0], "state")) == stt and "int(msg, 16)" in src(kwarg(cs[0], "num"))
         chk.ob("SYNC-1", "%s reports state %d for the hex switch number" % (nm, stt), ok, h.where(), construct=h.ident, text=nm + " state")
+
+
+def _opp_poll(chk, repo):
+    """POLL-14: the OPP read-input poll is the only source of switch reports on that link; every trip of the poll loop sends a poll,
+    also the trip in which the wait for the previous answer timed out (a lost answer is followed by a new poll, not by waiting for
+    an answer nobody will send); the answer flag is cleared only after an answer arrived, before the next poll goes out; the
+    answer handler sets the flag."""
+    OPPF = "mpf/platforms/opp/opp.py"
+    f = repo.func(OPPF, "OppHardwarePlatform._poll_sender")
+    chk.analysed(f)
+    cfg = f.cfg()
+    heads = [h for h in cfg.nodes if h.kind == "join" and isinstance(h.ast, ast.While)]
+    send = [n.id for n, c in cfg.calls_named("send_to_processor") if c.args and "read_input_msg" in src(c.args[-1])]
+    chk.need(len(heads) == 1 and send, "POLL-14", "_poll_sender loops and sends the read-input poll", f)
+    h = heads[0]
+    starts = [s_ for s_ in cfg.succs(h.id, False)]
+    w = None
+    for st in starts:
+        w = w or cfg.path_avoiding(st, [h.id], send, ignore_exc=False, include_start=False)
+    chk.ob("POLL-14", "every trip of the poll loop sends a poll (also after a timed-out wait)", w is None, f.where(h.ast), path=cfg.fmt_path(w, OPPF) if w else None,
+           detail="a trip that sends nothing waits for an answer to a poll that was never sent: switch reports stop for good", construct=f.ident,
+           text="poll loop trip without poll")
+    clr = [(n, c) for n, c in cfg.calls_named("clear") if "_poll_response_received" in src(c.func.value)]
+    wt = [n for n in cfg.nodes if n.kind == "stmt" and n.has_await() and "_poll_response_received" in n.text(200)]
+    ok = len(clr) == 1 and len(wt) == 1
+    if ok:
+        # cleared only on the path where the wait returned normally
+        exc_succ = [s_ for s_ in cfg.nodes[wt[0].id].succ if (wt[0].id, s_) in cfg.exc_edges]
+        reach_exc = cfg.reachable(exc_succ, ignore_exc=False) if exc_succ else set()
+        back = {h.id}
+        # nodes reachable from the handler before the loop head is passed again
+        hand = set()
+        todo = list(exc_succ)
+        while todo:
+            x = todo.pop()
+            if x in hand or x == h.id:
+                continue
+            hand.add(x)
+            todo.extend(cfg.succs(x, False))
+        ok = clr[0][0].id not in hand and all(cfg.path_avoiding(clr[0][0].id, [sid], [h.id], ignore_exc=True) is not None for sid in send[:1])
+    chk.ob("POLL-14", "the answer flag is cleared only after an answer arrived, before the next poll is sent", ok, f.where(), construct=f.ident, text="poll flag clear")
+    g = [m for m in repo.cls(OPPF, "OppHardwarePlatform").methods.values() if any(
+        isinstance(c.func, ast.Attribute) and c.func.attr == "set" and "_poll_response_received" in src(c.func.value) for c in m.calls())]
+    chk.ob("POLL-14", "the read-input answer handler raises the answer flag", len(g) >= 1, f.where(), detail=str([m.name for m in g]), construct=f.ident, text="poll flag set")
 
 
 def _flatten_or(e):
@@ -679,6 +725,8 @@ def battery():
         M("resync only on direct-input frames", OS_, "                    if (self.part_msg[0] & 0xe0) == 0x20:\n                        self._lost_synch = False", "                    if (self.part_msg[0] & 0xe0) == 0x20 and strlen > 1 and self.part_msg[1] == ord(OppRs232Intf.READ_GEN2_INP_CMD):\n                        self._lost_synch = False", "DOM-29"),
         M("twin: resync scan bounded by strlen > 1", OS_, "                while strlen > 0:\n                    # wait for next gen2 card message", "                while strlen >= 1:\n                    # wait for next gen2 card message", None),
         M("twin: resync also checks the command byte, for every dispatched command", OS_, "                while strlen > 0:\n                    # wait for next gen2 card message\n                    if (self.part_msg[0] & 0xe0) == 0x20:\n                        self._lost_synch = False", "                while strlen > 1:\n                    # wait for next gen2 card message\n                    if (self.part_msg[0] & 0xe0) == 0x20 and (self.part_msg[1] == ord(OppRs232Intf.READ_GEN2_INP_CMD) or self.part_msg[1] == ord(OppRs232Intf.READ_MATRIX_INP)):\n                        self._lost_synch = False", None),
+        M("OPP poll loop sends nothing after a timed-out wait", OP, "                self.log.warning(\"Poll took more than %sms for %s\", timeout * 1000, chain_serial)\n            else:\n                self._poll_response_received[chain_serial].clear()", "                self.log.warning(\"Poll took more than %sms for %s\", timeout * 1000, chain_serial)\n                continue\n\n            self._poll_response_received[chain_serial].clear()", "POLL-14"),
+        M("OPP poll flag cleared although no answer came", OP, "                self.log.warning(\"Poll took more than %sms for %s\", timeout * 1000, chain_serial)\n            else:\n                self._poll_response_received[chain_serial].clear()", "                self.log.warning(\"Poll took more than %sms for %s\", timeout * 1000, chain_serial)\n                self._poll_response_received[chain_serial].clear()", "POLL-14"),
     ]
 
 
